@@ -465,8 +465,9 @@ def run_check(mod, tier, seed, replay=None):
     scan = source_scan()
     if scan:
         broken_obligations.append("forbidden construct in Lean sources: " + "; ".join(scan[:5]))
-    if consts_broken:
-        broken_obligations.append("constants not found in source: " + ", ".join(relevant_missing))
+    # a constant whose source pattern no longer matches keeps its last extracted value: the theorems still check, but
+    # against a value that is no longer re-read from the code - a lost tie (handled with the translation tie below),
+    # not a broken obligation.  A constant that IS found and changed rewrites Consts.lean and breaks the obligations.
     lc_note = None
     if tier == "thorough" and not broken_obligations:
         okc, outc = leanchecker(mods)
@@ -490,6 +491,8 @@ def run_check(mod, tier, seed, replay=None):
         tie["units"] = {u: ("ok" if v[0] else "FAILED " + v[1][:160]) for u, v in units.items()}
     except Exception as e:
         tie["lost"] = ["tie machinery: %s" % e]
+    if consts_broken:
+        tie.setdefault("lost", []).extend("const %s: source pattern not found, last extracted value kept" % m for m in relevant_missing)
     if tie["lost"] and not replay:
         log("NOTE translation tie lost (%s): deciding on the correspondence alone, with the search widened" % "; ".join(tie["lost"])[:600])
         anchors_changed = sorted(set(anchors_changed + ["tie:" + l.split(":")[0] for l in tie["lost"]]))
